@@ -379,7 +379,7 @@ pub fn profile(name: &str) -> Profile {
         "C04" => Profile { name: "C04", universe: (1, 10), ..base },
         "C05" => Profile { name: "C05", collide_share: 2, ttl_share: 9, w_advance: 36, w_insert: 36, w_if_present: 3, w_getmut: 1, w_lookups: 1, default_interval_share: 3, ..base },
         "C09" => Profile { name: "C09", collide_share: 3, validators: true, w_if_present: 22, w_insert: 30, w_remove: 10, capacity: "ample", fixed_cost_per_key: false, coster: true, ..base },
-        "C11" => Profile { name: "C11", w_clear: 9, ttl_share: 6, ..base },
+        "C11" => Profile { name: "C11", collide_share: 2, w_clear: 9, ttl_share: 6, ..base },
         "C16" => Profile { name: "C16", capacity: "ample", fixed_cost_per_key: false, coster: true, big_costs: true, w_if_present: 10, w_advance: 12, ttl_share: 3, ..base },
         "C17" => Profile { name: "C17", capacity: "evict", fixed_cost_per_key: false, w_lookups: 14, w_clear: 3, universe: (4, 14), big_costs: true, ..base },
         "C01" => Profile { name: "C01", capacity: "evict", fixed_cost_per_key: false, big_costs: true, w_maxcost: 6, w_if_present: 8, coster: true, universe: (4, 16), ..base },
